@@ -619,6 +619,10 @@ fn run_reader_prop(ctx: &Ctx, prop: Prop, lit: (usize, u64)) -> i32 {
         let d = directed_continuous_writer(ctx, &mut agg);
         extra.push(("directed_continuous_writer_scenario", d));
     }
+    if prop == Prop::C03 {
+        let d = long_sequential_run(ctx, "C03", &mut agg);
+        extra.push(("long_sequential_run", d));
+    }
     let capped = agg.stats.capped;
     let mut coverage = base_coverage(&agg, &plan_info, lit, capped);
     for (k, v) in extra {
@@ -637,6 +641,100 @@ fn run_reader_prop(ctx: &Ctx, prop: Prop, lit: (usize, u64)) -> i32 {
         machinery_failure("nothing was explored before the cap");
     }
     finish(ctx, Outcome { level: if prop == Prop::C04 { "fault_enumeration" } else { "model_checking" }, coverage, assumptions: assumptions(), violations })
+}
+
+/// A long sequential run (real memory, no exploration): 70 000 consecutive publications through the
+/// 16-bit wrap, with a long-lived reader calling after every publication, a second one calling every
+/// 997th and a fresh reader every 4999th; every call happens while the writer is idle and must return
+/// the latest publication. The bounded explorations above cover every interleaving of a handful of
+/// updates; this covers what only arms after many (counters, the wrap reached by counting, state
+/// carried across thousands of calls). Returns (publications, reader calls).
+fn long_sequential_run(ctx: &Ctx, pfx: &str, agg: &mut Agg) -> Value {
+    use clock_bound_shm::{ShmReader, ShmWrite, ShmWriter};
+    let dir = thread_dir(&ctx.scratch());
+    let path = dir.join("long");
+    let _ = std::fs::remove_file(&path);
+    let cpath = std::ffi::CString::new(path.to_str().unwrap()).unwrap();
+    let mut w = ShmWriter::new(&path).expect("writer");
+    let n: i64 = 70_000;
+    let rec = |k: i64| Rec { as_of_s: 5000 + k / 3, as_of_ns: (k % 7) * 1000, va_s: 6000 + k / 3, va_ns: 0, bound: 1000 + (k % 5), drift: 1000, reserved: 0, status: [1u32, 2, 0][(k % 3) as usize] };
+    let mut every: Option<ShmReader> = None;
+    let mut sparse: Option<ShmReader> = None;
+    let mut calls = 0u64;
+    let mut restarts = 0u64;
+    for k in 1..=n {
+        if k % 10_007 == 0 {
+            // a clean daemon restart on the way
+            drop(w);
+            close_leaked_fds(&path);
+            w = ShmWriter::new(&path).expect("writer restart");
+            restarts += 1;
+        }
+        w.write(&rec(k).to_ceb());
+        if every.is_none() {
+            every = ShmReader::new(&cpath).ok();
+        }
+        let mut check = |r: &mut ShmReader, who: &str, calls: &mut u64, agg: &mut Agg| {
+            *calls += 1;
+            let got = r.snapshot().map(Rec::from_ceb).map_err(|e| format!("{e:?}"));
+            if got != Ok(rec(k)) {
+                agg.add(format!("{pfx}:long-run:stale-or-wrong"), 0, format!("sequential run: after publication {k} (writer idle) a {who} reader obtained {:?} instead of the record just published", got.as_ref().map(|r| r.json())), json!({"engine": "seqmc", "directed": "long sequential run", "publication": k, "reader": who, "calls": []}));
+                return false;
+            }
+            true
+        };
+        if let Some(r) = every.as_mut() {
+            if !check(r, "long-lived (called after every publication)", &mut calls, agg) {
+                break;
+            }
+        }
+        if k % 997 == 0 {
+            if sparse.is_none() {
+                sparse = ShmReader::new(&cpath).ok();
+            }
+            if let Some(r) = sparse.as_mut() {
+                if !check(r, "long-lived (called every 997th publication)", &mut calls, agg) {
+                    break;
+                }
+            }
+        }
+        if k % 4999 == 0 {
+            match ShmReader::new(&cpath) {
+                Ok(mut r) => {
+                    if !check(&mut r, "newly attached", &mut calls, agg) {
+                        break;
+                    }
+                }
+                Err(e) => {
+                    agg.add(format!("{pfx}:long-run:cannot-attach"), 0, format!("sequential run: after publication {k} a new reader cannot attach: {e:?}"), json!({"engine": "seqmc", "directed": "long sequential run", "publication": k, "calls": []}));
+                    break;
+                }
+            }
+        }
+        // the file as a third-party reader sees it
+        if k % 1 == 0 {
+            let g = w_generation(&path);
+            if g == 0 || g % 2 == 1 {
+                agg.add(format!("{pfx}:long-run:generation"), 0, format!("sequential run: after publication {k} the generation in the file is {g}"), json!({"engine": "seqmc", "directed": "long sequential run", "publication": k, "calls": []}));
+                break;
+            }
+        }
+    }
+    drop(w);
+    close_leaked_fds(&path);
+    json!({"kind": "directed (one sequential schedule)", "publications": n, "clean_restarts": restarts, "reader_calls": calls})
+}
+
+fn w_generation(path: &std::path::Path) -> u16 {
+    use std::os::unix::fs::FileExt;
+    let mut g = [0u8; 2];
+    match std::fs::File::open(path) {
+        Ok(f) => {
+            let _ = f.read_exact_at(&mut g, 14);
+            u16::from_ne_bytes(g)
+        }
+        Err(_) => 0,
+    }
 }
 
 /// C04 (c): in-place takeover of a valid segment; repair of an unusable one.
@@ -863,6 +961,7 @@ fn run_c11(ctx: &Ctx) -> i32 {
             succ_all.entry((e[0].as_u64().unwrap() as u16, e[1].as_bool().unwrap())).or_default().push((e[2].as_u64().unwrap() as u16, e[3].as_bool().unwrap()));
         }
     }
+    let long_run = long_sequential_run(ctx, "C11", &mut agg);
     // from a fresh (wiped) segment
     let fresh = record_all(
         with_crashes(&Scenario { init: Init::Absent, incs: vec![(2, None), (2, None)], chunks, family: 0 }, &thread_dir(&base)),
@@ -908,6 +1007,7 @@ fn run_c11(ctx: &Ctx) -> i32 {
         ("rule", json!("one writer trace per (start generation, crash point); every start generation 1..65535 is distinct; the successor relation of the closure is computed by the real ShmWriter::write")),
         ("start_generations", json!(gens.len())),
         ("crash_points_per_update", json!(n_ev - 1)),
+        ("long_sequential_run", long_run),
         ("writer_events_checked", json!(agg.stats.transitions)),
         ("violation_counts_by_class", json!(agg.counts)),
         ("exhaustive", json!(step == 1)),
